@@ -74,10 +74,77 @@ def _ob_seg3(init: int, strict: bool, a1: int, a2: int, a3: int) -> bool:
         return H.run_checks('seg', init, level, [CORE_SEG[a1], CORE_SEG[a2], CORE_SEG[a3]], MODE)
 
 
+# ---- O.open: refused operations on an OPEN-ENDED segment that holds fields beyond its structure ---------------------------------
+# (what such a segment encodes depends on a counter next to its children list, not only on the list)
+OPEN_SEGS = [('QPD', '2.5', 3), ('ZIN', '2.5', 0), ('RDT', '2.7', 1)]      # (segment, version, number of defined fields)
+OPEN_OPS = ['value = text that repeats a non-repeatable field', 'value = text with an over-long ST', 'value = text of another segment',
+            'add(field of another segment)', 'add(field of another version)', 'extra field = over-long value', 'del absent extra field',
+            'children.set(unknown name)']
+NOS, NOO = len(OPEN_SEGS), len(OPEN_OPS)
+
+
+def open_check(si, oi, nextra, level, trace=None):
+    from hl7apy.core import Message, Segment, Field
+    reset_defaults()
+    name, v, ndef = OPEN_SEGS[si]
+    seg = Segment(name, version=v, validation_level=level)
+    for k in range(1, ndef + 1):
+        setattr(seg, '%s_%d' % (name.lower(), k), 'a%d' % k)
+    for k in range(ndef + 1, ndef + 1 + nextra):          # the fields beyond the structure
+        setattr(seg, '%s_%d' % (name.lower(), k + 1), 'x%d' % k)
+    snap = lambda: (seg.to_er7(), seg.to_er7(trailing_children=True), tuple(id(c) for c in seg.children),
+                    tuple(c.to_er7() for c in seg.children))
+    before = snap()
+    low = name.lower()
+    try:
+        if oi == 0:
+            seg.value = '%s|A~B~C|1|2|3|4|5|6|7' % name if name != 'ZIN' else 'ZIN|' + 'x' * 70000
+        elif oi == 1:
+            seg.value = '%s|%s' % (name, 'x' * 70000)
+        elif oi == 2:
+            seg.value = 'PID|1||2'
+        elif oi == 3:
+            seg.add(Field('PID_3', version=v, validation_level=level))
+        elif oi == 4:
+            seg.add(Field('%s_%d' % (name, ndef + 9), version='2.3' if v != '2.3' else '2.4', validation_level=level))
+        elif oi == 5:
+            setattr(seg, '%s_%d' % (low, ndef + 7), 'y' * 70000)
+        elif oi == 6:
+            delattr(seg, '%s_%d' % (low, ndef + 20))
+        else:
+            seg.children.set('NOSUCH_1', 'v')
+        raised = None
+    except Exception as e:
+        raised = e
+    after = snap()
+    if trace is not None:
+        trace.append('%s v%s with %d extra fields, level %d: %s -> %s\n  before %r\n  after  %r' % (
+            name, v, nextra, level, OPEN_OPS[oi], 'raised %s' % type(raised).__name__ if raised else 'accepted', before[:2], after[:2]))
+    return raised is None or before == after
+
+
+def _ob_open(si: int, oi: int, nextra: int, strict: bool) -> bool:
+    """
+    pre: 0 <= si < NOS and 0 <= oi < NOO and 0 <= nextra <= 3
+    post: _
+    """
+    from harness.c02 import bsearch
+    si, oi, nextra = bsearch(si, NOS), bsearch(oi, NOO), bsearch(nextra, 4)
+    level = 1 if strict else 2
+    with concrete():
+        return open_check(si, oi, nextra, level)
+
+
 def explain(call):
     import re
     m = re.match(r'(\w+)\((.*)\)$', call, re.S)
     a, k = eval('(lambda *a, **k: (a, k))(%s)' % m.group(2))
+    if m.group(1) == '_ob_open':
+        v = dict(zip(['si', 'oi', 'nextra', 'strict'], a))
+        v.update(k)
+        tr = []
+        open_check(v['si'], v['oi'], v['nextra'], 1 if v['strict'] else 2, tr)
+        return '\n'.join(tr)
     target, alphabet = TABLE[m.group(1)]
     v = dict(zip(['init', 'strict', 'a1', 'a2', 'a3'], a))
     v.update(k)
@@ -107,6 +174,9 @@ SPEC = {
          'bound': 'Segment PID (inside an ADT_A01), 3 initial states x 2 levels x every history of length <=2 over %d actions (%s)' % (NSEG, _ALL)},
         {'name': 'msg.len2', 'fn': '_ob_msg2', 'parts': 16, 'cond_timeout': 900, 'path_timeout': 60,
          'bound': 'Message ADT_A01, 2 initial states x 2 levels x every history of length <=2 over %d actions' % NMSG},
+        {'name': 'O.open', 'fn': '_ob_open', 'parts': 1, 'cond_timeout': 600, 'path_timeout': 60,
+         'bound': 'open-ended segments %r holding 0..3 fields beyond their structure x %d refusable operations x 2 levels: when the '
+                  'call raises, encoding (with and without trailing children) and children are as before' % ([x[0] for x in OPEN_SEGS], NOO)},
     ] + ([
         {'name': 'fld.len2', 'fn': '_ob_fld2', 'parts': 16, 'cond_timeout': 900, 'path_timeout': 60,
          'bound': 'Field PID_5, 2 initial states x 2 levels x every history of length <=2 over %d actions' % NFLD},
